@@ -199,6 +199,8 @@ def check_call(engine, contract, fn, args, universe=None, ns_extra=None, allow_e
     for n in names:  # ... except objects (mutated in place) and declared by-reference containers
         if n in contract.modifies or hasattr(env[n], "__dict__"):
             post_env[n] = env[n]
+    for n in names:  # the argument objects themselves (for ownership / aliasing clauses)
+        post_env[n + "__now"] = env[n]
     post_env["result"] = result
     post_env["__old__"] = _OldEnv(old, post_env)
     for e in contract.ensures:
